@@ -373,6 +373,14 @@ class Gen:
                     pairs = [[x, free.pop()], [a_, b_], [b_, free.pop()]]
                     rnd.shuffle(pairs)
                     return 'relabel %s map %s' % (v, list_s([y for pr in pairs for y in pr]))
+                if bad and len(ss) >= 3 and free and rnd.random() < 0.4:
+                    # a harmless rename listed BEFORE one onto a name in use that the map does not mention:
+                    # the whole request is invalid and must leave the first rename undone too
+                    order_ = [tok(z) for z in c.simplices()]
+                    a_, b_, u_ = sorted(rnd.sample(ss, 3), key=lambda y: order_.index(tok(y)))
+                    pairs = [[a_, free.pop()], [b_, u_]]
+                    rnd.shuffle(pairs)
+                    return 'relabel %s map %s' % (v, list_s([y for pr in pairs for y in pr]))
                 for s in chosen:
                     if bad and rnd.random() < 0.5 and ss:
                         m += [s, rnd.choice(ss)]
